@@ -555,3 +555,29 @@ def variant_edges(fn, adt_pat, variant_idx, nvariants):
             other = next(iter(others)) if others else None
             out.append((sw['bb'], tgt, other))
     return out
+
+
+def base_local(fn, operand, depth=16):
+    """The local an operand's value is rooted in: follows copies, references, derefs and field projections through
+    single definitions; stops at parameters, call results and locals with several definitions (loop-carried values)."""
+    p = op_place(operand) if isinstance(operand, dict) and ('cp' in operand or 'mv' in operand) else operand
+    if p is None or 'l' not in p:
+        return None
+    l = p['l']
+    for _ in range(depth):
+        if 1 <= l <= fn.argc:
+            return l
+        defs = [d for d in fn.defs_of(l) if d[0] in ('assign', 'call')]
+        if len(defs) != 1 or defs[0][0] == 'call':
+            if len(defs) == 1 and defs[0][0] == 'call' and fn._transparent(defs[0][3], wide=False) and defs[0][3].args and op_place(defs[0][3].args[0]) is not None:
+                l = op_place(defs[0][3].args[0])['l']
+                continue
+            return l
+        rv = defs[0][3]
+        if rv['k'] in ('use', 'cast') and op_place(rv['a']) is not None:
+            l = op_place(rv['a'])['l']
+        elif rv['k'] in ('ref', 'rawptr'):
+            l = rv['p']['l']
+        else:
+            return l
+    return l
